@@ -40,10 +40,14 @@ DoBuild(e) ==
       mayrun == (may \cup AlwaysDown("may")) \cap nmay
       comp == { <<e.compiled[i].t, e.compiled[i].s>> : i \in 1..Len(e.compiled) }
       cmust == { o \in omust : o[1] \in nmust } \cup { o \in Objs(script) : o[1] \in nmust /\ \E a \in Always(script) : ObjReadsTarget(script, o, a) }
-      cmay == { o \in omay : o[1] \in nmay } \cup { o \in Objs(script) : o[1] \in nmay /\ \E a \in Always(script) : ObjReadsTarget(script, o, a) } IN
+      cmay == { o \in omay : o[1] \in nmay } \cup { o \in Objs(script) : o[1] \in nmay /\ \E a \in Always(script) : ObjReadsTargetM(script, o, a, "may") } IN
   /\ Need(e.exit = 0, "BuildSucceeds", e.goal)
   /\ Need(mustrun \subseteq ran, "EveryOutOfDateStepRuns", mustrun \ ran)
-  /\ Need(ran \subseteq mayrun, "NoUpToDateStepRuns", ran \ mayrun)
+  \* (a symbolic-link copy with extra_deps that runs again is the recorded finding: reported as a SOFT
+  \*  rejection - the verdict is the same, the rest of the history is still examined)
+  /\ IF (ran \ mayrun) # {} /\ (ran \ mayrun) \subseteq SymX(script)
+       THEN Say(<<"SOFT", Traces[t].id, "NoUpToDateStepRuns", l, ran \ mayrun>>)
+       ELSE Need(ran \subseteq mayrun, "NoUpToDateStepRuns", ran \ mayrun)
   /\ Need(cmust \subseteq comp, "EveryOutOfDateObjectIsCompiled", cmust \ comp)
   /\ Need(comp \subseteq cmay, "NoUpToDateObjectIsCompiled", comp \ cmay)
   /\ Need(Len(e.compiled) = Cardinality(comp), "EachObjectCompiledOnce", Len(e.compiled))
@@ -69,7 +73,7 @@ DoTouch(e) ==
             /\ may' = may \cup ((DownTarget(script, e.t, "may") \ {e.t}) \cap Acts(script))
                           \cup ArOf(LAMBDA o : ObjReadsTarget(script, o, e.t)) \cup ArMay(DownTarget(script, e.t, "may") \ {e.t})
             /\ omust' = omust \cup { o \in Objs(script) : ObjReadsTarget(script, o, e.t) }
-            /\ omay' = omay \cup { o \in Objs(script) : ObjReadsTarget(script, o, e.t) }
+            /\ omay' = omay \cup { o \in Objs(script) : ObjReadsTargetM(script, o, e.t, "may") }
   /\ UNCHANGED script
 
 TraceNext == /\ l <= Len(Traces[t].events)
